@@ -144,6 +144,20 @@ def inner_apps(tmpdir):
     async def araw_dup(scope, receive, send):
         await send({"type": "http.response.start", "status": 200, "headers": [(b"set-cookie", b"a=1"), (b"set-cookie", b"b=2")]})
         await send({"type": "http.response.body", "body": b"x"})
+    # header VALUES that contain ", " (the Expires date of a cookie, a list-valued header, a quoted string): one line in, the
+    # same one line out - nothing between the application and the server re-splits or re-joins a value
+    LISTY = [("Set-Cookie", "sid=1; expires=Fri, 15 Jan 2027 08:00:00 GMT; Path=/"), ("Vary", "Accept, Cookie"),
+             ("Link", '</a>; rel="x, y", </b>; rel=next'), ("X-Raw", "1")]
+
+    def raw_listy(environ, start_response):
+        start_response("200 OK", list(LISTY))
+        return [b"x"]
+
+    async def araw_listy(scope, receive, send):
+        await send({"type": "http.response.start", "status": 200,
+                    "headers": [(k.lower().encode(), v.encode()) for k, v in LISTY]})
+        await send({"type": "http.response.body", "body": b"x"})
+
     def chunk_apps(kind, chunks):
         def wapp(environ, start_response):
             start_response("200 OK", [("X-Raw", "1")])
@@ -168,7 +182,8 @@ def inner_apps(tmpdir):
                 extra["chunks/%s/%s" % (kind, ",".join(c.decode() or "-" for c in seq))] = chunk_apps(kind, seq)
     raw = {**extra, "raw_list": (raw_list, araw, False), "raw_tuple": (raw_tuple, araw, False), "raw_gen": (raw_gen, araw, False),
            "raw_empty": (raw_empty, araw_empty, False), "raw_dup_headers": (raw_dup, araw_dup, True),
-           "raw_high_bytes": (raw_high, araw_high, False), "raw_hop_by_hop": (raw_hop, araw_hop, False), "raw_restart_with_exc_info": (raw_restart, araw, False)}
+           "raw_high_bytes": (raw_high, araw_high, False), "raw_hop_by_hop": (raw_hop, araw_hop, False), "raw_restart_with_exc_info": (raw_restart, araw, False),
+           "raw_comma_space_in_values": (raw_listy, araw_listy, False)}
     return apps, raw
 
 
